@@ -113,48 +113,96 @@ class Function:
     def all_calls(self):
         return [nd for nd in self.nodes if nd["k"] in CALLS or nd["k"] in CTORS]
 
+    def ref_aliases(self):
+        """{decl id: term} for reference locals bound to a sub-object whose identity cannot change while the reference
+        lives: a member path (with constant indices) below a variable, a parameter or *this. (`auto& h = file.header;`)"""
+        c = getattr(self, "_ref_aliases", None)
+        if c is not None:
+            return c
+        c = self._ref_aliases = {}
+        def fixed_path(t):
+            if t == ("this",) or (t[0] == "un" and t[1] == "*" and t[2] == ("this",)):
+                return True
+            if t[0] == "var":
+                return True
+            if t[0] == "mem":
+                return fixed_path(t[1])
+            if t[0] == "idx":
+                return t[2][0] == "const" and fixed_path(t[1])
+            return False
+        for nd in self.nodes:
+            if nd["k"] != "DeclStmt":
+                continue
+            for d in nd.get("decls", []):
+                if not d.get("is_ref") or "init" not in d or "d" not in d:
+                    continue
+                ini = self.nodes[self.strip(d["init"])] if self.strip(d["init"]) is not None else {}
+                if ini.get("k") in CALLS or ini.get("k") in CTORS or ini.get("k") == "MaterializeTemporaryExpr":
+                    continue
+                t = self.term(d["init"])
+                if t[0] == "un" and t[1] == "*" and t[2] == ("this",):
+                    t = ("this",)
+                if t[0] in ("mem", "idx", "this") and fixed_path(t):
+                    c[d["d"]] = t
+        return c
+
     # --- locals read through their definitions -------------------------------
     @staticmethod
     def _root(t):
-        """The object a term designates storage in: a variable, a member of *this, a global; a dereference starts a new
-        object (the pointee), which is only the same object as another dereference of the same root."""
+        """The storage a term designates, as (base, first field or None): base is a variable, *this or a global; a
+        dereference starts a new object (the pointee), which is only the same object as another dereference of that base."""
         deref = False
+        field = None
         while isinstance(t, tuple) and t:
-            if t[0] in ("mem", "idx"):
-                if t[0] == "mem" and t[1] == ("this",):
-                    return ("deref", ("this", t[2])) if deref else ("this", t[2])
+            if t[0] == "mem":
+                field = t[2]
+                t = t[1]
+            elif t[0] == "idx":
                 t = t[1]
             elif t[0] == "un" and t[1] == "*":
                 deref = True
+                field = None
                 t = t[2]
             elif t[0] == "un" and t[1] == "&":
                 t = t[2]
-            elif t[0] in ("var", "global"):
-                return ("deref", t) if deref else t
-            elif t[0] == "this":
-                return ("deref", t) if deref else t
+            elif t[0] in ("var", "global", "this"):
+                return (("deref", t) if deref else t, None if deref else field)
             else:
                 return None
         return None
 
-    def _roots_mentioned(self, t, acc=None, deref=False):
+    def _roots_mentioned(self, t, acc=None):
         acc = set() if acc is None else acc
         if not isinstance(t, tuple) or not t:
             return acc
-        if t[0] in ("var", "global"):
-            acc.add(t)
-        elif t[0] == "mem" and t[1] == ("this",):
-            acc.add(("this", t[2]))
-        elif t[0] == "this":
-            acc.add(("this",))
-        elif t[0] == "un" and t[1] == "*":
+        if t[0] in ("var", "global", "this"):
+            acc.add((t, None))
+            return acc
+        if t[0] in ("mem", "idx") or (t[0] == "un" and t[1] in ("*", "&")):
             r = self._root(t)
             if r is not None:
                 acc.add(r)
+            # index expressions inside the path are read as well
+            u = t
+            while isinstance(u, tuple) and u and u[0] in ("mem", "idx", "un"):
+                if u[0] == "idx":
+                    self._roots_mentioned(u[2], acc)
+                    u = u[1]
+                elif u[0] == "mem":
+                    u = u[1]
+                else:
+                    u = u[2]
+            if r is None:
+                self._roots_mentioned(u, acc)
+            return acc
         for x in t[1:]:
             if isinstance(x, tuple):
                 self._roots_mentioned(x, acc)
         return acc
+
+    @staticmethod
+    def _conflict(store, mention):
+        return store[0] == mention[0] and (store[1] is None or mention[1] is None or store[1] == mention[1])
 
     def local_definitions(self):
         """Locals that name a value: declared with an initialiser, never assigned again (or const), never handed out by
@@ -185,6 +233,12 @@ class Function:
             elif k in CALLS or k in CTORS:
                 ps = nd.get("params") or []
                 args = nd.get("args", [])
+                if k in CTORS and nd.get("copy_or_move"):
+                    par = pm.get(nd["id"])
+                    while par is not None and self.nodes[par]["k"] in WRAPPERS:
+                        par = pm.get(par)
+                    if par is not None and self.nodes[par]["k"] == "ReturnStmt":
+                        continue        # the returned object is moved out as the function ends: nothing reads it afterwards
                 if k == "CXXOperatorCallExpr" and len(args) == len(ps) + 1:
                     # member operator: the first argument is the object
                     if not nd.get("mconst", True) and not ((nd.get("mrec") or "").startswith("std::") and nd.get("op") in ("[]", "*", "->")):
@@ -193,18 +247,27 @@ class Function:
                         stores.append((nd["id"], self._root(self.term(args[0]))))
                     args = args[1:]
                 for a, p in zip(args, ps):
-                    if (p.get("ref") and not p.get("const_ref")) or (p.get("ptr") and "const" not in (p.get("t") or "").split("*")[0]):
+                    if p.get("ref") and not p.get("const_ref"):
                         stores.append((nd["id"], self._root(self.term(a))))
+                    elif p.get("ptr") and "const" not in (p.get("t") or "").split("*")[0]:
+                        # a pointer handed over: what it points to may be written, not the pointer variable itself
+                        at = self.term(a)
+                        an = self.nodes[self.strip(a)] if self.strip(a) is not None else {}
+                        if (at[0] == "un" and at[1] == "&") or "[" in (an.get("t") or ""):
+                            stores.append((nd["id"], self._root(at)))
+                        else:
+                            r = self._root(at)
+                            if r is not None:
+                                stores.append((nd["id"], (r[0] if isinstance(r[0], tuple) and r[0] and r[0][0] == "deref" else ("deref", r[0]), None)))
                 if k == "CXXMemberCallExpr" and "obj" in nd and not nd.get("mconst") and not nd.get("mstatic") and not (
                         (nd.get("mrec") or "").startswith("std::") and nd.get("fname") in ("begin", "end", "data", "at", "front", "back", "get", "rbegin", "rend")):
                     ot = self.term(nd["obj"])
-                    r = self._root(ot)
-                    if ot == ("this",):
-                        r = ("this",)
-                    stores.append((nd["id"], r))
+                    stores.append((nd["id"], self._root(ot)))
             elif k == "CXXForRangeStmt":
                 pass
         defs = {}
+        nodes = {}
+        info = {}
         for nd in self.nodes:
             if nd["k"] != "DeclStmt":
                 continue
@@ -222,29 +285,83 @@ class Function:
                 if inside is None:
                     inside = set(self.subtree(scope, into_lambdas=True))
                 roots = self._roots_mentioned(t)
-                this_members = any(r[0] == "this" and len(r) == 2 for r in roots)
                 okv = True
+                conflicts = []
                 for sid, r in stores:
                     if r is None:
                         continue
-                    if r == v and not d.get("is_ref"):
+                    if r[0] == v and not d.get("is_ref"):
                         okv = False
+                        conflicts = None
                         break
-                    if sid in inside and sid > nd["id"]:
-                        if r in roots or (r == ("this",) and this_members) or (r[0] == "this" and len(r) == 2 and ("this",) in roots):
-                            okv = False
-                            break
+                    if sid in inside and sid > nd["id"] and any(self._conflict(r, m) for m in roots):
+                        okv = False
+                        conflicts.append(sid)
                 if okv:
                     defs[v] = t
+                    nodes[v] = d["init"]
+                if conflicts is not None:
+                    info[v] = {"decl": nd["id"], "init": d["init"], "term": t, "conflicts": conflicts}
         if cache is None:
             cache = self._local_defs = {}
         cache[kc] = defs
+        self._local_def_nodes = nodes
+        if not hasattr(self, "_local_def_info"):
+            self._local_def_info = {}
+        self._local_def_info[kc] = info
         return defs
 
+    def local_value_at(self, v, use_id):
+        """What the local v names when read at node use_id: its initialiser, provided nothing the initialiser reads can have
+        changed between the declaration and this read (no conflicting store in between, and none later in a loop that
+        repeats the read without repeating the declaration). None if v is not such a local there."""
+        self.local_definitions()
+        inf = self._local_def_info[bool(getattr(self, "keep_casts", False))].get(v)
+        if inf is None or use_id is None or use_id <= inf["decl"]:
+            return None
+        for sid in inf["conflicts"]:
+            if inf["decl"] < sid < use_id:
+                return None
+            if sid >= use_id:
+                for lp in self.loops_containing(use_id):
+                    sub = self._loop_subtrees()[lp]
+                    if sid in sub and inf["decl"] not in sub:
+                        return None
+        return inf["term"]
+
+    def _loop_subtrees(self):
+        c = getattr(self, "_loop_sub", None)
+        if c is None:
+            c = self._loop_sub = {nd["id"]: set(self.subtree(nd["id"], into_lambdas=True)) for nd in self.nodes
+                                  if nd["k"] in ("ForStmt", "WhileStmt", "DoStmt", "CXXForRangeStmt")}
+        return c
+
+    def loops_containing(self, i):
+        return [lp for lp, sub in self._loop_subtrees().items() if i in sub]
+
+    def local_init_node_at(self, v, use_id):
+        return self._local_def_info[bool(getattr(self, "keep_casts", False))][v]["init"] if self.local_value_at(v, use_id) is not None else None
+
+    def local_definition_nodes(self):
+        """{value-naming local: node id of its initialiser} (see local_definitions)."""
+        self.local_definitions()
+        return self._local_def_nodes
+
     def xterm(self, i):
-        """term(i) with value-naming locals replaced by what they name (to a fix-point)."""
+        """term(i) with the locals that name a value at that point replaced by what they name (to a fix-point)."""
         t = self.term(i)
-        return self.through_locals(t)
+        for _ in range(6):
+            m = {}
+            for st in _subterms(t):
+                if st[0] == "var" and st not in m:
+                    val = self.local_value_at(st, i)
+                    if val is not None:
+                        m[st] = val
+            n = _subst_vars(t, m) if m else t
+            if n == t:
+                break
+            t = n
+        return t
 
     def through_locals(self, t):
         defs = self.local_definitions()
@@ -293,6 +410,10 @@ class Function:
             if "cv" in nd and not self._address_taken(i):
                 # a const local with a constant initialiser, read as a value: it *is* that constant
                 return ("const", int(nd["cv"]))
+            al = self.ref_aliases().get(nd.get("d"))
+            if al is not None:
+                # a reference local bound to a fixed sub-object: another name for that sub-object
+                return al
             return ("var", nd.get("n"), nd.get("d"))
         if k == "CXXThisExpr":
             return ("this",)
@@ -436,6 +557,14 @@ def _subst_vars(t, m):
     if isinstance(t, tuple):
         return tuple(_subst_vars(x, m) if isinstance(x, tuple) else x for x in t)
     return t
+
+
+def _subterms(t):
+    if isinstance(t, tuple):
+        yield t
+        for x in t:
+            if isinstance(x, tuple):
+                yield from _subterms(x)
 
 
 def _subst_this(t, obj):
